@@ -110,7 +110,13 @@ def gen_text(rnd, n=None):
 
 def gen_component(rnd, depth=0):
     """-> (lines, expected tree-ish description)"""
-    from icalendar.parser import escape_char, dquote
+    # the wire text is produced by OWN encoders (RFC 5545 3.3.11 / 3.2), not by the library's escape_char / dquote
+
+    def escape_char(v):
+        return v.replace("\\", "\\\\").replace(";", "\\;").replace(",", "\\,").replace("\r\n", "\\n").replace("\n", "\\n")
+
+    def dquote(v):
+        return '"' + v + '"' if any(c in v for c in ",;:") else v
     name = rnd.choice(["VEVENT", "VTODO", "VJOURNAL", "X-BOX", "VALARM", "X-" + rnd.choice(["A", "B"])])
     lines = [rnd.choice(["BEGIN", "begin", "Begin"]) + ":" + (name if rnd.random() < 0.7 else name.lower())]
     exp_props = []
